@@ -10,6 +10,9 @@ from . import logixreq as Q
 from .harness import call
 
 
+SEND_REGIME = None  # set by a caller that wants the whole corpus executed under short writes (see net.World.send_regime)
+
+
 def _logix_world(pname, pers, conn, policy_kw=None, **kw):
     import pycomm3
 
@@ -18,13 +21,16 @@ def _logix_world(pname, pers, conn, policy_kw=None, **kw):
     pk = dict(large_fo="accept" if conn == 4000 else "refuse08")
     pk.update(policy_kw or {})
     t = enip.Target(ctl, enip.Policy(**pk), keep_cip=False)
-    w = net.World(t, io_budget=10**9)
+    w = net.World(t, io_budget=10**9, send_regime=SEND_REGIME)
     w.__enter__()
     d = pycomm3.LogixDriver("10.0.0.1")
     return proj, ctl, t, w, d
 
 
 HANDLES = [1, 0x80, 0xFF, 0x100, 0xFFFF, 0x10000, 0x7FFFFFFF, 0x80000000, 0xFFFFFFFF, 0x00FF00FF, 0x01000001]
+
+
+CONN_IDS = HANDLES + [0]  # a target may grant connection id 0 (a session handle of 0 would mean "no session")
 
 
 def scenarios(tier="quick"):
@@ -38,7 +44,7 @@ def scenarios(tier="quick"):
             for conn in (4000, 500):
                 k += 1
                 h = HANDLES[k % len(HANDLES)]
-                c = HANDLES[(k * 3 + 1) % len(HANDLES)]
+                c = CONN_IDS[(k * 3 + 1) % len(CONN_IDS)]
                 proj, ctl, t, w, d = _logix_world(pname, pers, conn, dict(session_handles=[h, h ^ 0x5A5A], conn_ids=[c, c ^ 0x0F0F]), **({"reduced": True} if pname == "P2" else {}))
                 call(d.open)
                 reqs = [x for x, cls in Q.read_requests(proj) if Q.read_expect(proj, x)[0] == "ok"]
@@ -63,9 +69,9 @@ def scenarios(tier="quick"):
                 call(d.close)
                 yield (f"logix/{pname}/{pers}/{conn}", w, t)
     # 2. lifecycle: open / close / reopen, list_identity, discover, refused policies
-    for polname, pk in (("ok", {}), ("large08", dict(large_fo="refuse08")), ("nofo", dict(large_fo="refuse08", std_fo="refuse")), ("nosession", dict(session="refuse")), ("nofclose", dict(fclose="refuse"))):
+    for polname, pk in (("ok", {}), ("cid0", dict(conn_ids=[0, 0xFFFFFFFF])), ("large08", dict(large_fo="refuse08")), ("nofo", dict(large_fo="refuse08", std_fo="refuse")), ("nosession", dict(session="refuse")), ("nofclose", dict(fclose="refuse"))):
         t = enip.Target(enip.IdentityDevice(), enip.Policy(**pk), keep_cip=False)
-        w = net.World(t, io_budget=10**7)
+        w = net.World(t, io_budget=10**7, send_regime=SEND_REGIME)
         w.__enter__()
         d = pycomm3.CIPDriver("10.0.0.1/bp/1/enet/10.11.12.13/bp/0")
         for _ in range(2):
@@ -81,7 +87,7 @@ def scenarios(tier="quick"):
 
     dev = c18.new_table(0)
     t = enip.Target(dev, keep_cip=False)
-    w = net.World(t, io_budget=10**7)
+    w = net.World(t, io_budget=10**7, send_regime=SEND_REGIME)
     w.__enter__()
     d = pycomm3.SLCDriver("10.0.0.1/bp/3")
     call(d.open)
